@@ -51,45 +51,45 @@ type SpecFn struct {
 }
 
 type Contract struct {
-	Pkg      string // import path
-	Func     string // Name, Type.Method, or qualified external "slices.Insert"
-	Mode     string // "int" (default) or "bv"
-	Returns  []string
-	Params   []string
-	Requires []Clause
-	Ensures  []Clause
-	LoopInv  map[int][]Clause
-	LoopDec  map[int]Clause
-	Modifies []Clause
-	ModHeap  bool
-	Pure     bool
-	Trusted  string // non-empty: contract is an assumption (external / not verified), with reason
-	Assumes  []Clause
-	Replay   string
-	NoSafety bool
-	Overflow []string // variables/expressions with wrap obligations: "all" for every int op
-	Unroll   int      // bounded unrolling of loops without invariant (function reported bounded)
-	Props    []string // property ids this function's obligations count for
-	Src      string
-	Opaque   map[string]bool // callees whose contracts are ignored (havoc) in this function
-	Notes    []string
-	Fields   map[string][]string // classification of the receiver struct's fields by kind (reset contracts)
-	Records  []Clause            // ghost instrumentation: assumed after calls, not checked against the body
-	Stable   []string            // package-level variables assumed not to be modified by uncontracted calls
-	Stateless bool               // result is a function of the argument values alone
-	NoAuto   bool                // do not propose loop invariants automatically
-	Wraps    bool                // signed 64-bit +,- wrap around exactly (integer mode)
-	Dead     map[string]bool     // returns claimed unreachable ("ret6")
-	TypeInv  []TypeInvClause     // objinv T [label] expr-over-self: assumed wherever a field of a *T that the clause mentions is addressed
-	ObjInv   []Clause            // object invariants: assumed at entry and again after every call (all writers of the fields re-establish them: onstore obligations + the onstore-coverage obligation)
-	OnStore  []OnStoreClause     // obligations attached to stores: "onstore Type.Field [label] expr" / "onstore name[*] [label] expr"
+	Pkg       string // import path
+	Func      string // Name, Type.Method, or qualified external "slices.Insert"
+	Mode      string // "int" (default) or "bv"
+	Returns   []string
+	Params    []string
+	Requires  []Clause
+	Ensures   []Clause
+	LoopInv   map[int][]Clause
+	LoopDec   map[int]Clause
+	Modifies  []Clause
+	ModHeap   bool
+	Pure      bool
+	Trusted   string // non-empty: contract is an assumption (external / not verified), with reason
+	Assumes   []Clause
+	Replay    string
+	NoSafety  bool
+	Overflow  []string // variables/expressions with wrap obligations: "all" for every int op
+	Unroll    int      // bounded unrolling of loops without invariant (function reported bounded)
+	Props     []string // property ids this function's obligations count for
+	Src       string
+	Opaque    map[string]bool // callees whose contracts are ignored (havoc) in this function
+	Notes     []string
+	Fields    map[string][]string // classification of the receiver struct's fields by kind (reset contracts)
+	Records   []Clause            // ghost instrumentation: assumed after calls, not checked against the body
+	Stable    []string            // package-level variables assumed not to be modified by uncontracted calls
+	Stateless bool                // result is a function of the argument values alone
+	NoAuto    bool                // do not propose loop invariants automatically
+	Wraps     bool                // signed 64-bit +,- wrap around exactly (integer mode)
+	Dead      map[string]bool     // returns claimed unreachable ("ret6")
+	TypeInv   []TypeInvClause     // objinv T [label] expr-over-self: assumed wherever a field of a *T that the clause mentions is addressed
+	ObjInv    []Clause            // object invariants: assumed at entry and again after every call (all writers of the fields re-establish them: onstore obligations + the onstore-coverage obligation)
+	OnStore   []OnStoreClause     // obligations attached to stores: "onstore Type.Field [label] expr" / "onstore name[*] [label] expr"
 }
 
 type ContractSet struct {
 	Specs     map[string]*SpecFn   // by name (package-local names; trusted specs share the namespace)
 	Funcs     map[string]*Contract // key: pkgpath + "." + Func ; for trusted: qualified name e.g. "slices.Insert"
 	Order     []string
-	Axioms    []Clause // global axioms (trusted) about uninterpreted spec functions
+	Axioms    []Clause          // global axioms (trusted) about uninterpreted spec functions
 	Ghosts    map[string]string // ghost variable name -> Go type
 	GhostOrd  []string
 	AxiomsSrc map[string]string
